@@ -76,6 +76,10 @@ def generate(rng):
         n = rng.randint(70000, 300000)
     if min(scn['size'], scn['maxread'] if scn['mode'] != 'rnb' else scn['size']) <= 7 or scn.get('cap', 65536) <= 16:
         n = min(n, 2500)
+    if any(0 < t < 50 for t in scn.get('tear', [])):
+        n = min(n, 4000)        # every read torn to a few bytes: keep the byte count bounded
+    if tr == 'popen' and scn['mode'] == 'rnb' and scn['size'] < 1000:
+        n = min(n, 20000)
     data = payload(rng, n)
     if tr == 'pty' and not scn.get('raw_out', True):
         data = data.replace(',', '\n') if rng.random() < 0.5 else data
@@ -107,7 +111,7 @@ def generate(rng):
         peer.append(st)
     scn['peer'] = peer
     scn['pause_us'] = rng.choice([200, 1000, 5000])
-    scn['step_cap'] = 3000000 if n > 5000 else 200000
+    scn['step_cap'] = 500000 if n > 5000 else 200000
     if n > 5000:
         scn['record_sites'] = False
     return scn
